@@ -1,6 +1,6 @@
 """C13 — strict recovery never silently returns damaged state."""
 from ..common import *
-from .. import persist
+from .. import persist, corr
 from .persist_common import run_persist_property
 
 MODULE = "KyroModel.Theorems.C13"
@@ -129,11 +129,115 @@ def codec_extra(rep, thorough, seed):
                       "codec_damage_kinds": kinds, "codec_reader_outcomes": outcomes}
 
 
+# ---------------------------------------------------------------------------------------------
+# through the real server binary's start-up
+
+def _rpcfs_runner(cases):
+    from concurrent.futures import ThreadPoolExecutor
+    from .. import rpc
+    with ThreadPoolExecutor(max_workers=12) as ex:
+        outs = list(ex.map(rpc._run_one, cases))
+    return [{"raw": c, "ann": c, "impl": o, "model": o, "engine": "rpcfs"} for c, o in zip(cases, outs)]
+
+
+corr.RUNNERS["rpcfs"] = _rpcfs_runner
+SERVER_FAULTS = ["op=rm file=MANIFEST", "op=trunc file=MANIFEST at=0", "op=flip file=MANIFEST at=0",
+                 "op=rm file=wal:0", "op=rm file=wal:1", "op=rm file=wal:2", "op=trunc file=wal:0 at=0", "op=trunc file=wal:1 at=3",
+                 "op=flip file=wal:0 at=0", "op=flip file=wal:1 at=1", "op=rm file=snap:0", "op=rm file=snap:1",
+                 "op=trunc file=snap:0 at=0", "op=flip file=snap:0 at=0", "op=flip file=snap:1 at=2"]
+
+
+def server_oracle(case):
+    """census before the clean stop vs census after the damaged directory was started"""
+    raw, impl = case["raw"], case["impl"]
+    fails = []
+    fi = next((i for i, l in enumerate(raw) if l.startswith("fs ")), None)
+    if fi is None or not impl[fi].startswith("ok"):
+        return fails
+    if any(r.startswith("<harness") for r in impl):
+        return [("harness", 0, "harness died")]
+    before = [impl[i] for i in range(fi) if raw[i].startswith("bq ")][-2:]
+    started = impl[fi + 1]
+    if started != "ok":
+        return fails                                  # refused to start
+    after = [impl[i] for i in range(fi + 2, len(raw)) if raw[i].startswith("bq ")][:2]
+    if before != after:
+        f = dict(p.split("=", 1) for p in raw[fi].split(" ")[1:])
+        cls = f["file"].split(":")[0].lower()
+        kind = "c13-server-%s-%s" % (cls, f["op"])
+        fails.append((kind, fi, "the server binary starts successfully after `%s` with a different collection: before %s, after %s" % (raw[fi], before, after)))
+    return fails
+
+
+def server_extra(rep, thorough, seed):
+    from .. import rpc
+    sok, slog, ssecs = rpc.server_build()
+    if not sok:
+        rep.violation(rep.write_replay("server_build.log", slog[-4000:]), no_input=True)
+        return [], {}
+    rng = rng_for(seed, "C13/server")
+    cases = []
+    d = os.path.join(CORPUS, "C13")
+    for p in sorted(os.listdir(d)) if os.path.isdir(d) else []:
+        if p.endswith(".rpc"):
+            cases.append(corr.read_replay(os.path.join(d, p))[1])
+    ids = "1,2,3,4,5,6,7,8"
+    for fault in SERVER_FAULTS * (3 if thorough else 1):
+        ops = ["cfg dim=2 tenants=ta:50,tb:50 cap=%d snap=%d" % (rng.choice([4, 64]), rng.choice([2, 3, 5])), "start"]
+        for phase in range(rng.choice([2, 3])):
+            for _ in range(rng.randint(3, 7)):
+                t = rng.choice(["ta", "tb"])
+                if rng.random() < 0.75:
+                    ops.append("ins t=%s id=%d v=%s m=- ns=-" % (t, rng.randint(1, 8), show_vec([f32bits(rng.choice([0.0, 0.5, 1.0, 2.0])) for _ in range(2)])))
+                else:
+                    ops.append("del t=%s id=%d ns=-" % (t, rng.randint(1, 8)))
+            ops.append("restart")
+        ops += ["bq t=ta ids=%s emb=1" % ids, "bq t=tb ids=%s emb=1" % ids, "stop", "fs " + fault, "start",
+                "bq t=ta ids=%s emb=1" % ids, "bq t=tb ids=%s emb=1" % ids, "stop"]
+        cases.append(ops)
+    findings, outcomes = [], {}
+    for c in _rpcfs_runner(cases):
+        fi = next((i for i, l in enumerate(c["raw"]) if l.startswith("fs ")), None)
+        if fi is not None:
+            key = c["raw"][fi][3:].split(" at=")[0] + " => " + ("no-such-file" if not c["impl"][fi].startswith("ok") else
+                  "refused" if c["impl"][fi + 1] != "ok" else "started")
+            outcomes[key] = outcomes.get(key, 0) + 1
+        for kind, idx, msg in server_oracle(c):
+            findings.append({"kind": "oracle", "engine": "rpcfs", "case": c, "idx": idx, "msg": msg,
+                             "sig": {"engine": "rpcfs", "kind": kind},
+                             "pred": (lambda cc, kind=kind: any(k == kind for k, _, _ in server_oracle(cc)))})
+    return findings, {"server_startup_faults": len(cases), "server_startup_outcomes": outcomes, "server_build_s": round(ssecs, 1)}
+
+
+def both_extra(rep, thorough, seed):
+    f1, c1 = codec_extra(rep, thorough, seed)
+    f2, c2 = server_extra(rep, thorough, seed)
+    return f1 + f2, dict(c1, **c2)
+
+
 def fields_of(a):
     return dict(p.split("=", 1) for p in a.split(" ")[1:] if "=" in p)
 
 
 def run(tier, seed, replay):
+    if replay and corr.read_replay(replay)[0] == "rpcfs":
+        from .. import rpc, verdict
+        rep = Report("C13", tier, seed)
+        ok, info = proof_stage(rep, MODULE)
+        bok, blog, _ = cargo_build()
+        sok, slog, _ = rpc.server_build() if bok else (False, "", 0)
+        if not (bok and sok):
+            rep.violation(rep.write_replay("build.log", (blog + slog)[-4000:]), no_input=True)
+            return rep.finish()
+        findings = []
+        for c in _rpcfs_runner([corr.read_replay(replay)[1]]):
+            for kind, idx, msg in server_oracle(c):
+                findings.append({"kind": "oracle", "engine": "rpcfs", "case": c, "idx": idx, "msg": msg,
+                                 "sig": {"engine": "rpcfs", "kind": kind}, "pred": None})
+        verdict.settle(rep, ok, info, findings, MODULE)
+        proof_coverage(rep, info, "lake build " + MODULE, TRUSTED)
+        return rep.finish()
+
     def post(rep, thorough, seed):
         return [], {}
     r = run_persist_property(
@@ -146,5 +250,5 @@ def run(tier, seed, replay):
         "the real strict recover runs on each damaged directory; evaluations = faults",
         ["truncation of the newest segment is excluded (crash case, C01)",
          "flips that make a snapshot's size field >= 32 GiB are not run in-process (allocator abort or EOF error depending on host memory; both are refusals)"],
-        extra=codec_extra)
+        extra=both_extra)
     return r
